@@ -94,7 +94,12 @@ P = {
          "releases only the position its discipline allows, otherwise the AGV keeps waiting) and extracted event monitors "
          "(ev_pre_release, ev_transit_release, ev_stores) on every applied transition. " + TIE),
  "C09": ("SM", "Theorems (Props/C09.v): IDLE->SETUP reads matrix[(mounted tool, new tool)], stamps now + that value, mounts the new tool, "
-         "moves the job in; offers only name idle machines; WORKING starts no earlier than the setup end (clock invariant); tool frame. " + TIE),
+         "moves the job in; offers only name idle machines; WORKING starts no earlier than the setup end (clock invariant); tool frame; "
+         "over whole runs (instances with unordered or capacity-one machine post-buffers, SMP/Setup.v): in every state and micro-state "
+         "of every run each machine's started operations form a sequence in which every operation's processing starts no earlier than "
+         "the end of the one before plus matrix[(tool before, own tool)] (the first: initial tool, episode start), the mounted tool being "
+         "the newest one's (C09_setup_sequence_*_flex, ghost sequence), and the same on the records alone for neighbouring DONE "
+         "operations (C09_consecutive_operations_separated_*_flex, clause setup_gap_b, also evaluated on every implementation state). " + TIE),
  "C10": ("SM", "Theorems (Props/C10.v): WORKING->OUTAGE / TRANSIT->OUTAGE block for exactly the longest sampled active outage, durations "
          "non-negative, no outage when none is due, release makes every record inactive and remembers its own end time, an OUTAGE "
          "component accepts only the release transition; over whole runs: outside OUTAGE every record is inactive and active records "
